@@ -572,8 +572,9 @@ fn svcb_builder_case(c: &mut Ctx, fam: &str, idx: u64, rng: &mut Rng) {
 }
 
 pub fn run(c: &mut Ctx) {
+    c.families(2);
     let fam = "svcb-builder";
-    let total = c.total(100_000, 2_000_000);
+    let total = c.total(100_000, 10_000_000);
     for idx in c.cases(fam, total) {
         if c.out_of_time() {
             break;
@@ -583,7 +584,7 @@ pub fn run(c: &mut Ctx) {
     }
     let mut per_type: BTreeMap<String, u64> = BTreeMap::new();
     let fam = "values";
-    let total = c.total(800_000, 16_000_000);
+    let total = c.total(800_000, 100_000_000);
     for idx in c.cases(fam, total) {
         if c.out_of_time() {
             break;
